@@ -56,6 +56,9 @@ type vf10Case struct {
 	File vf10File          `json:"file"`
 	Enc  []vf10Enc         `json:"enc"` // applied in order (inner layer first)
 	Env  map[string]string `json:"env"`
+	// optional: the environment without the variables under test; the case is then loaded a second
+	// time with it and the observation says whether both loads gave the same configuration
+	BaseEnv *map[string]string `json:"baseEnv,omitempty"`
 }
 
 type vf10I64 struct {
@@ -101,6 +104,10 @@ type vf10Obs struct {
 	DefaultsMutated bool         `json:"defaultsMutated"`
 	FileLen         int          `json:"fileLen"`
 	Micros          int64        `json:"micros"`
+	// only with baseEnv: both loads returned a configuration and they are reflect.DeepEqual
+	Compared bool   `json:"compared"`
+	Same     bool   `json:"same"`
+	BaseErr  string `json:"baseErr,omitempty"`
 }
 
 func vf10Hex(v int64) vf10I64 {
@@ -413,10 +420,16 @@ func vf10Trunc(s string, n int) string {
 	return s
 }
 
-func vf10CloneUsers(in []AuthInternalUser) []AuthInternalUser {
-	b, _ := json.Marshal(in)
+var vf10Users []byte
+
+func vf10PristineUsers() []AuthInternalUser {
+	if vf10Users == nil {
+		vf10Users, _ = json.Marshal(defaultAuthInternalUsers)
+	}
 	var out []AuthInternalUser
-	_ = json.Unmarshal(b, &out)
+	if err := json.Unmarshal(vf10Users, &out); err != nil {
+		panic(err)
+	}
 	return out
 }
 
@@ -439,28 +452,33 @@ func vf10RunCase(c *vf10Case, dir string) vf10Obs {
 		}
 		obs.FileLen = len(byts)
 	}
-	for k, v := range c.Env {
-		os.Setenv(k, v)
-	}
-	defer func() {
-		for k := range c.Env {
-			os.Unsetenv(k)
-		}
-	}()
-
-	// the built-in user list is a package variable that the environment loader can reach
+	// the built-in user list is a package variable that Load hands out and that the environment
+	// loader can write through: every load gets a pristine copy, as in a fresh process
 	// (Load itself turns the nil lists inside it into empty lists: not counted as a change)
-	savedBytes := vf10UsersJSON()
-	saved := vf10CloneUsers(defaultAuthInternalUsers)
+	load := func(env map[string]string) (cf *Conf, err error, panicked bool, msg string, mutated bool) {
+		for k, v := range env {
+			os.Setenv(k, v)
+		}
+		defer func() {
+			for k := range env {
+				os.Unsetenv(k)
+			}
+		}()
+		defaultAuthInternalUsers = vf10PristineUsers()
+		before := vf10UsersJSON()
+		panicked, msg = verifrt.Catch(func() {
+			cf, _, err = Load(fp, nil, nil)
+		})
+		mutated = !bytes.Equal(before, vf10UsersJSON())
+		return
+	}
 
-	var cf *Conf
 	t0 := time.Now()
-	panicked, msg := verifrt.Catch(func() {
-		cf, _, err = Load(fp, nil, nil)
-	})
+	cf, err, panicked, msg, mutated := load(c.Env)
 	obs.Micros = time.Since(t0).Microseconds()
 	obs.Panic = panicked
 	obs.Msg = vf10Trunc(msg, 300)
+	obs.DefaultsMutated = mutated
 	if !panicked {
 		if err != nil {
 			obs.Err = true
@@ -470,10 +488,19 @@ func vf10RunCase(c *vf10Case, dir string) vf10Obs {
 			obs.Conf = vf10Observe(cf)
 		}
 	}
-	if !bytes.Equal(savedBytes, vf10UsersJSON()) {
-		obs.DefaultsMutated = true
+	if c.BaseEnv != nil && obs.OK {
+		cf2, err2, panicked2, msg2, _ := load(*c.BaseEnv)
+		switch {
+		case panicked2:
+			obs.BaseErr = "panic: " + vf10Trunc(msg2, 200)
+		case err2 != nil:
+			obs.BaseErr = vf10Trunc(err2.Error(), 200)
+		case cf2 != nil:
+			obs.Compared = true
+			obs.Same = reflect.DeepEqual(cf, cf2)
+		}
 	}
-	copy(defaultAuthInternalUsers, saved)
+	defaultAuthInternalUsers = vf10PristineUsers()
 	return obs
 }
 
